@@ -1,28 +1,10 @@
 // C04 — conversions preserve value or truncate toward zero at destination resolution
 #pragma once
+#include "../floatval.h"
 #include "../scaledval.h"
-
-#include <mpfr.h>
 
 namespace c04 {
 using namespace vf;
-
-template<class F>
-inline F nearest_float(mpq_class const& q)  // correctly rounded (nearest, ties to even)
-{
-    mpfr_t x;
-    mpfr_init2(x, std::numeric_limits<F>::digits);
-    mpfr_set_q(x, q.get_mpq_t(), MPFR_RNDN);
-    F r;
-    if constexpr (std::is_same_v<F, float>)
-        r = mpfr_get_flt(x, MPFR_RNDN);
-    else if constexpr (std::is_same_v<F, double>)
-        r = mpfr_get_d(x, MPFR_RNDN);
-    else
-        r = mpfr_get_ld(x, MPFR_RNDN);
-    mpfr_clear(x);
-    return r;
-}
 
 template<class T>
 inline constexpr bool is_float_v = std::is_floating_point_v<T>;
